@@ -80,6 +80,9 @@ type Expression struct {
 	Value            reflect.Value
 
 	Evaluated bool
+
+	// snapshot is the result of GetSnapshot, kept by the working memory once the node is registered there
+	snapshot string
 }
 
 // MakeCatalog will create a catalog entry from Expression node.
@@ -208,6 +211,10 @@ func (e *Expression) GetGrlText() string {
 
 // GetSnapshot will create a structure signature or AST graph
 func (e *Expression) GetSnapshot() string {
+	if len(e.snapshot) > 0 {
+
+		return e.snapshot
+	}
 	var buff strings.Builder
 	buff.WriteString(EXPRESSION)
 	buff.WriteString("(")
